@@ -1,8 +1,15 @@
 package main
 
 import (
+	"context"
 	"fmt"
 	"strings"
+	"time"
+
+	"github.com/lidofinance/dc4bc/client/api/dto"
+	ctypes "github.com/lidofinance/dc4bc/client/types"
+	"github.com/lidofinance/dc4bc/fsm/fsm"
+	"github.com/lidofinance/dc4bc/storage"
 )
 
 func init() {
@@ -82,7 +89,85 @@ func scenarioC13(c *Ctx) {
 			}
 		}})
 	}
+	// crash points inside the handling of an operation result (local API)
+	probe := NewNodeEnv(newEnvDir(c), me)
+	known := map[string]*ctypes.Operation{}
+	for _, it := range h[:4] {
+		applyItem(probe, it)
+	}
+	ops := pendingOps(probe)
+	probe.Close()
+	if len(ops) > 0 {
+		o := ops[len(ops)-1]
+		known[o.ID] = o
+		ev := resultEventFor(string(o.Type))
+		d := &dto.OperationDTO{ID: o.ID, Type: string(o.Type), Payload: o.Payload, CreatedAt: o.CreatedAt, DkgID: o.DKGIdentifier, Event: fsm.Event(ev),
+			ResultMsgs: []storage.Message{{Event: ev, Data: []byte(`{"ParticipantId":0,"answer":"one"}`), DkgRoundID: o.DKGIdentifier},
+				{Event: ev, Data: []byte(`{"ParticipantId":0,"answer":"two"}`), DkgRoundID: o.DKGIdentifier}}}
+		res := resultItem(d, known, "result")
+		opProj := projOp(o)
+		for k := 0; k <= 4; k++ {
+			items := append(append([]Item{}, h[:4]...), crashResultItem(res, k))
+			kk := k
+			total++
+			cases = append(cases, HistCase{Kind: "crash-result", User: me, Items: items, PrefixKey: "result-crash", Check: func(ob RunObs) {
+				posted := strings.Count(sectionOf(ob.After, " BOARD ", ""), "[") - strings.Count(sectionOf(ob.Before, " BOARD ", ""), "[")
+				stillPending := strings.Contains(sectionOf(ob.After, " OPS ", " DEL "), opProj) && !strings.Contains(sectionOf(ob.After, " DEL ", " SIGS"), opProj)
+				if posted < len(d.ResultMsgs) && !stillPending {
+					fail("crash-loses-operation", map[string]interface{}{"handler": "executeOperation", "after_durable_writes": kk},
+						fmt.Sprintf("a crash after %d durable writes of an operation result: only %d of %d messages reached the board and the operation is no longer pending", kk, posted, len(d.ResultMsgs)),
+						map[string]interface{}{"crash_after_durable_writes": kk, "before": ob.Before, "after": ob.After})
+				}
+			}})
+		}
+	}
 	runCases(c, cases)
+
+	// the real Poll loop: the node is killed while handling the first message of the board; after the
+	// restart the loop must fetch that message again (offset saved only after handling)
+	for _, k := range []int{0, 1} {
+		e := NewNodeEnv(newEnvDir(c), me)
+		e.Rounds[round] = true
+		if err := e.Board.Send(h[0].In.Msg); err != nil {
+			panic(err)
+		}
+		runPoll := func(armK int) {
+			ctx, cancel := context.WithCancel(context.Background())
+			pe := e.PollNode(ctx)
+			if armK >= 0 {
+				e.Ctl.armed, e.Ctl.remaining = true, armK
+			}
+			done := make(chan struct{})
+			go func() {
+				defer close(done)
+				defer func() {
+					if r := recover(); r != nil {
+						if _, ok := r.(crashSignal); !ok {
+							panic(r)
+						}
+					}
+				}()
+				pe.Poll()
+			}()
+			select {
+			case <-done: // crashed
+			case <-time.After(2500 * time.Millisecond):
+			}
+			cancel()
+			<-done
+			e.Ctl.armed = false
+		}
+		runPoll(k)
+		runPoll(-1)
+		snap := e.Snapshot()
+		e.Close()
+		c.Case("poll-crash", true, "skip poll-crash", "skip poll-crash")
+		if !strings.Contains(snap, "state_sig_proposal_await_participants_confirmations") {
+			fail("crash-loses-message", map[string]interface{}{"handler": "Poll"},
+				fmt.Sprintf("the node was killed after %d durable writes while the Poll loop handled a message; after the restart the message is never applied", k),
+				map[string]interface{}{"crash_after_durable_writes": k, "snapshot": snap})
+		}
+	}
 	c.Notes["crash_points"] = total
 	c.Notes["messages"] = len(h)
 }
